@@ -63,8 +63,9 @@ func NeedsHTMLEscape(s string) bool {
 func FormatAttr(val string) string {
 	var b strings.Builder
 
-	// Trim leading and trailing whitespace
-	val = strings.TrimSpace(val)
+	// Trim leading and trailing whitespace (HTML white space: a no-break
+	// space is a character of the value)
+	val = strings.Trim(val, " \t\n\r\f")
 
 	// Replace newlines with spaces
 	val = strings.ReplaceAll(val, "\n", " ")
